@@ -5,6 +5,12 @@ ROOT = os.path.dirname(os.path.dirname(os.path.abspath(__file__)))
 HOOK_COMMITS = ["33257d2", "7614da3"]
 TRUST = "Trusted base: the simulator itself (driver, scripted handlers, recording sink, oracles); encoding_rs; rustc. The whole lol_html crate runs as shipped (release profile with debug-assertions and overflow-checks on, feature-gated hooks are read-only)."
 CHECKS = {
+ "C02": dict(level="exploration", tech="deterministic simulation: every schedule compared with the single-write reference execution (relational oracle over histories)",
+   text="Seeded exploration of scenarios (observer and deterministic mutating handler sets) x delivery schedules; each execution's final bytes, result and handler-visible event sequence (text chunks merged per node) are compared with the single-write execution of the same scenario and with rewrite_str; all 1-cut (2-cut for small documents) splits of each explored document are enumerated.",
+   ref="DESIGN.md section 5 C02"),
+ "C09": dict(level="exploration", tech="deterministic simulation: bounded-liveness oracle (bytes emitted when write() returns) over every prefix, compared with a fresh single-write run and a prefix-derived bound",
+   text="For every explored document every prefix is delivered (1-cut sweep) plus sampled schedules; after each write() the emitted byte count must equal that of a fresh rewriter given the same prefix in one write, must be zero-pending after complete constructs and ordinary text, and within the prefix-derived bound for the no-handler configuration / the unfinished token for observer configurations.",
+   ref="DESIGN.md section 5 C09"),
  "C01": dict(level="exploration", tech="deterministic simulation: seeded delivery schedules (cut sweeps, empty writes, early close, drop) with conservation oracle",
    text="Seeded exploration of (document, encoding, strict, observer set) x delivery schedules with a byte-conservation oracle checked during and after each run; every 1-cut (and 2-cut for small documents) of each explored document is enumerated, documents and configurations are sampled. Exploration is the honest level: inputs are unbounded, so a clean batch is evidence, not proof.",
    ref="DESIGN.md section 5 C01"),
